@@ -179,6 +179,21 @@ fn arm_nested<'a>(cell: &SeamCell<'a>, phase: u8, op: &SOp, out: &Rc<RefCell<Vec
     }
 }
 
+/// A thread-local object of the caller whose destructor performs a round trip at
+/// thread exit; initialised when the caller thread starts, i.e. before any
+/// thread-local the library may create, so those are destroyed first.
+struct ExitHook(Option<Box<dyn FnOnce()>>);
+impl Drop for ExitHook {
+    fn drop(&mut self) {
+        if let Some(f) = self.0.take() {
+            f();
+        }
+    }
+}
+thread_local! {
+    static EXIT_HOOK: RefCell<ExitHook> = const { RefCell::new(ExitHook(None)) };
+}
+
 struct OpRecord {
     line: String,
     violations: Vec<Violation>,
@@ -191,7 +206,36 @@ struct OpRecord {
     injective: Vec<(String, String, String, String)>,
 }
 
+/// One round trip, made where the operation says: in the ordinary course of the
+/// thread, or by a `Drop` that runs while the thread unwinds from a panic of the
+/// caller (caught by the caller; `std::thread::panicking()` is true meanwhile).
 fn run_op(sched: &Sched, me: usize, idx: usize, op: &SOp, alloc_seams: bool, lean: bool) -> OpRecord {
+    if op.mode != 1 {
+        return run_op_here(sched, me, idx, op, alloc_seams, lean);
+    }
+    struct Guard<'a> {
+        sched: &'a Sched,
+        me: usize,
+        idx: usize,
+        op: &'a SOp,
+        alloc_seams: bool,
+        lean: bool,
+        out: &'a mut Option<OpRecord>,
+    }
+    impl Drop for Guard<'_> {
+        fn drop(&mut self) {
+            *self.out = Some(run_op_here(self.sched, self.me, self.idx, self.op, self.alloc_seams, self.lean));
+        }
+    }
+    let mut out = None;
+    let _ = catch_unwind(AssertUnwindSafe(|| {
+        let _g = Guard { sched, me, idx, op, alloc_seams, lean, out: &mut out };
+        panic!("simulated panic of the caller: a value is serialised while the thread unwinds");
+    }));
+    out.expect("the round trip did not run")
+}
+
+fn run_op_here(sched: &Sched, me: usize, idx: usize, op: &SOp, alloc_seams: bool, lean: bool) -> OpRecord {
     let subj: Box<dyn Subject> = in_sim(|| subject(&op.what));
     let counts = IoCounts::default();
     let io = IoParams { seed: op.io_seed, counts: &counts };
@@ -293,7 +337,10 @@ fn run_op(sched: &Sched, me: usize, idx: usize, op: &SOp, alloc_seams: bool, lea
     rec.short = counts.short.get();
     rec.interrupted = counts.interrupted.get();
     if !lean {
-        rec.line = format!("t{} op{} {} via {} ser[{}] de[{}]{}", me, idx, subj.describe(), rname, ser_line, de_line, nested_line);
+        rec.line = format!(
+            "t{} op{}{} {} via {} ser[{}] de[{}]{}",
+            me, idx, ["", "(unwinding)", "(at thread exit)"][op.mode.min(2) as usize], subj.describe(), rname, ser_line, de_line, nested_line
+        );
     }
     rec
 }
@@ -310,19 +357,27 @@ pub fn execute_mode(plan: &SPlan, free: bool) -> SRunResult {
         let first = sched.choose(&mut st, None).unwrap_or(0);
         st.current = first;
     }
+    let late: Arc<std::sync::Mutex<Vec<(usize, OpRecord)>>> = Arc::new(std::sync::Mutex::new(Vec::new()));
     let alloc_seams = plan.alloc_seams;
     let lean = plan.lean;
     let repeat = plan.repeat.max(1);
     let mut handles = Vec::new();
     for (me, ops) in plan.threads.iter().cloned().enumerate() {
         let sched = Arc::clone(&sched);
+        let late = Arc::clone(&late);
         handles.push(std::thread::spawn(move || {
+            // the caller's thread-local object exists before the library has done anything on this thread
+            EXIT_HOOK.with(|h| h.borrow_mut().0 = None);
             sched.start(me);
             let mut recs = Vec::new();
             let mut lean_sum = (0u64, 0u64);
             let mut kinds: Vec<(String, u32)> = Vec::new();
+            let at_exit = if !free && !lean && ops.last().map(|o| o.mode == 2).unwrap_or(false) { ops.len() - 1 } else { usize::MAX };
             for rep in 0..repeat {
                 for (i, op) in ops.iter().enumerate() {
+                    if i == at_exit {
+                        continue;
+                    }
                     sched.seam(me, false);
                     let rec = run_op(&sched, me, rep as usize * ops.len() + i, op, alloc_seams, lean);
                     if lean {
@@ -351,7 +406,21 @@ pub fn execute_mode(plan: &SPlan, free: bool) -> SRunResult {
                     }
                 }
             }
-            sched.finish(me);
+            if at_exit != usize::MAX {
+                // the last round trip is made by the thread-local's destructor when the thread
+                // exits; the thread keeps its place in the schedule until then
+                let (sched, op) = (Arc::clone(&sched), ops[at_exit].clone());
+                EXIT_HOOK.with(|h| {
+                    h.borrow_mut().0 = Some(Box::new(move || {
+                        sched.seam(me, false);
+                        let rec = run_op(&sched, me, at_exit, &op, alloc_seams, false);
+                        late.lock().unwrap().push((me, rec));
+                        sched.finish(me);
+                    }))
+                });
+            } else {
+                sched.finish(me);
+            }
             (recs, lean_sum)
         }));
     }
@@ -361,7 +430,14 @@ pub fn execute_mode(plan: &SPlan, free: bool) -> SRunResult {
     // (type, space, form) -> (ident, thread, op, subject-ish)
     let mut seen: std::collections::BTreeMap<(String, String, String), (String, usize, usize)> = std::collections::BTreeMap::new();
     for (t, h) in handles.into_iter().enumerate() {
-        let (recs, lean_sum) = h.join().expect("simulated caller thread died outside an operation");
+        let (mut recs, lean_sum) = h.join().expect("simulated caller thread died outside an operation");
+        {
+            // the round trip made at thread exit (the thread has been joined, so it has happened)
+            let mut l = late.lock().unwrap();
+            while let Some(pos) = l.iter().position(|(th, _)| *th == t) {
+                recs.push(l.remove(pos).1);
+            }
+        }
         stats.judged += lean_sum.0;
         stats.ops += lean_sum.1;
         let mut faulted_before = false;
